@@ -1,0 +1,39 @@
+//go:build verif
+
+package streams
+
+import (
+	internaltypes "lunar/engine/streams/internal-types"
+	publictypes "lunar/engine/streams/public-types"
+)
+
+// VerifSelectedFlows exposes (for the external verification harness, build tag
+// "verif" only) which flows the filter tree selects for a transaction handled
+// as streamType, in selection order: system-start, user and system-end flow
+// names. It adds no behaviour: the stream type is restored before returning.
+func (s *Stream) VerifSelectedFlows(
+	apiStream publictypes.APIStreamI,
+	streamType publictypes.StreamType,
+) (start, user, end []string, found bool) {
+	prev := apiStream.GetType()
+	apiStream.SetType(streamType)
+	defer apiStream.SetType(prev)
+	res, ok := s.filterTree.GetFlow(apiStream)
+	if !ok {
+		return nil, nil, nil, false
+	}
+	names := func(flows []internaltypes.FlowI, valid bool) []string {
+		out := []string{}
+		if !valid {
+			return out
+		}
+		for _, f := range flows {
+			out = append(out, f.GetName())
+		}
+		return out
+	}
+	start = names(res.GetSystemFlowStart())
+	user = names(res.GetUserFlow())
+	end = names(res.GetSystemFlowEnd())
+	return start, user, end, true
+}
